@@ -430,15 +430,18 @@ namespace detail
 	{
 		GLM_STATIC_ASSERT(std::numeric_limits<genType>::is_iec559 || GLM_CONFIG_UNRESTRICTED_FLOAT, "'roundEven' only accept floating-point inputs");
 
-		int Integer = static_cast<int>(x);
-		genType IntegerPart = static_cast<genType>(Integer);
 		genType FractionalPart = fract(x);
 
-		if(FractionalPart > static_cast<genType>(0.5) || FractionalPart < static_cast<genType>(0.5))
+		// not a tie, including NaN and infinities for which fract(x) is NaN
+		if(FractionalPart != static_cast<genType>(0.5))
 		{
 			return round(x);
 		}
-		else if((Integer % 2) == 0)
+
+		int Integer = static_cast<int>(x);
+		genType IntegerPart = static_cast<genType>(Integer);
+
+		if((Integer % 2) == 0)
 		{
 			return IntegerPart;
 		}
